@@ -158,6 +158,16 @@ func (f *Facts) AllFunctions() []*ssa.Function {
 			case *ssa.Function:
 				add(x)
 			case *ssa.Type:
+				// the methods of a generic type have no method value of their own; their generic bodies stand for
+				// every instance (calls of an instance are attributed to them through Origin)
+				if named, ok := x.Type().(*types.Named); ok && named.TypeParams().Len() > 0 {
+					for i := 0; i < named.NumMethods(); i++ {
+						if fn := f.Prog.SSA.FuncValue(named.Method(i)); fn != nil && fn.Synthetic == "" && len(fn.Blocks) > 0 {
+							add(fn)
+						}
+					}
+					continue
+				}
 				for _, t := range []types.Type{x.Type(), types.NewPointer(x.Type())} {
 					ms := f.Prog.SSA.MethodSets.MethodSet(t)
 					for i := 0; i < ms.Len(); i++ {
@@ -579,7 +589,7 @@ func (ef *Effects) direct(fn *ssa.Function) {
 					}
 				} else {
 					cs.Dynamic = true
-					if pv, ok := cc.Value.(*ssa.Parameter); ok && !cc.IsInvoke() && fn.Object() != nil && !fn.Object().Exported() {
+					if pv, ok := cc.Value.(*ssa.Parameter); ok && !cc.IsInvoke() && fn.Object() != nil && load.IsHelper(fn.Object()) {
 						// an unexported helper calling the function it is handed: judged where it is called
 						for i, q := range fn.Params {
 							if q == pv {
@@ -640,6 +650,7 @@ func (ef *Effects) dynamicTargets(cc *ssa.CallCommon) []*ssa.Function {
 	if !ok {
 		return nil
 	}
+	generic := sigMentionsTypeParam(sig)
 	var out []*ssa.Function
 	for _, fn := range ef.All {
 		if fn.Signature.Recv() != nil {
@@ -650,11 +661,67 @@ func (ef *Effects) dynamicTargets(cc *ssa.CallCommon) []*ssa.Function {
 			}
 			continue
 		}
-		if types.Identical(fn.Signature, sig) {
+		if types.Identical(fn.Signature, sig) || (generic && wildMatch(fn.Signature, sig)) {
 			out = append(out, fn)
 		}
 	}
 	return out
+}
+
+// sigMentionsTypeParam: the function type of a call inside a generic body may mention the body's type parameters.
+func sigMentionsTypeParam(sig *types.Signature) bool {
+	for _, tup := range []*types.Tuple{sig.Params(), sig.Results()} {
+		for i := 0; i < tup.Len(); i++ {
+			if mentionsTP(tup.At(i).Type(), 0) {
+				return true
+			}
+		}
+	}
+	return false
+}
+
+func mentionsTP(t types.Type, depth int) bool {
+	if depth > 6 {
+		return false
+	}
+	switch u := t.(type) {
+	case *types.TypeParam:
+		return true
+	case *types.Pointer:
+		return mentionsTP(u.Elem(), depth+1)
+	case *types.Slice:
+		return mentionsTP(u.Elem(), depth+1)
+	case *types.Array:
+		return mentionsTP(u.Elem(), depth+1)
+	case *types.Map:
+		return mentionsTP(u.Key(), depth+1) || mentionsTP(u.Elem(), depth+1)
+	case *types.Named:
+		if ta := u.TypeArgs(); ta != nil {
+			for i := 0; i < ta.Len(); i++ {
+				if mentionsTP(ta.At(i), depth+1) {
+					return true
+				}
+			}
+		}
+	}
+	return false
+}
+
+// wildMatch: fn's type fits the call's function type when the positions of the latter that mention a type
+// parameter are read as "any type" (every instance of the generic body is covered).
+func wildMatch(fn, call *types.Signature) bool {
+	if fn.Params().Len() != call.Params().Len() || fn.Results().Len() != call.Results().Len() || fn.Variadic() != call.Variadic() {
+		return false
+	}
+	for _, pr := range [][2]*types.Tuple{{fn.Params(), call.Params()}, {fn.Results(), call.Results()}} {
+		for i := 0; i < pr[0].Len(); i++ {
+			a, b := pr[0].At(i).Type(), pr[1].At(i).Type()
+			if !mentionsTP(b, 0) && !types.Identical(a, b) {
+				return false
+			}
+		}
+	}
+	return true
 }
 
 // propagate folds callee effects into fn; returns true if something was added.
@@ -735,7 +802,7 @@ func (ef *Effects) propagate(fn *ssa.Function) bool {
 					case *ssa.Parameter:
 						// handed on: judged at this function's own call sites
 						for i, q := range fn.Params {
-							if q == a && fn.Object() != nil && !fn.Object().Exported() {
+							if q == a && fn.Object() != nil && load.IsHelper(fn.Object()) {
 								if fe.ParamCalls == nil {
 									fe.ParamCalls = map[int]bool{}
 								}
